@@ -3,7 +3,23 @@
 EXTENDS SimplexJudge, TLC, Json, IOUtils
 
 T == ndJsonDeserialize(IOEnv.TRACE_FILE)
-F(r) == IF r.tier = 3 THEN FFailing(r) ELSE Failing(r)
+(* conformance with the explorer Johnson.tla (backup procedure of the original GJK): on lattice input the real routine reports
+   the ordered subset and the point of the model's candidate scan.  A difference is drift (an exact tie between two candidates
+   can be broken by the rounding of the normalised weights), never a verdict. *)
+J == INSTANCE Johnson WITH K <- 4, C <- 1, Variant <- "lib", Y <- <<>>
+V3s(Z) == [i \in DOMAIN Z |-> <<Z[i][1], Z[i][2], Z[i][3]>>]
+JohnsonDrift(r) ==
+  IF r.tier = 1 /\ r.solver = "johnson" /\ r.exc = "none" /\ r.recon
+  THEN LET k == Len(r.Y)
+           \* SimplexInfo.add_new_point moves the first point to the last spot and puts the new one first: after the harness has
+           \* added Y1 .. Yk the routine sees them in this order
+           perm == CASE k = 1 -> <<1>> [] k = 2 -> <<2, 1>> [] k = 3 -> <<3, 1, 2>> [] k = 4 -> <<4, 1, 2, 3>>
+           Z == [i \in 1..k |-> <<r.Y[perm[i]][1], r.Y[perm[i]][2], r.Y[perm[i]][3]>>]
+           b == J!Backup(Z)  p == J!PointOf(Z, b)
+           ord == [i \in DOMAIN b.ord |-> perm[b.ord[i] + 1]] IN
+       IF r.S = ord /\ Scale(p[2], <<r.xn[1], r.xn[2], r.xn[3]>>) = Scale(r.xd, p[1]) THEN {} ELSE {"DRIFT_JohnsonMatchesModel"}
+  ELSE {}
+F(r) == (IF r.tier = 3 THEN FFailing(r) ELSE Failing(r)) \cup JohnsonDrift(r)
 BadIdx == {i \in 1..Len(T) : F(T[i]) # {}}
 ASSUME /\ \A i \in BadIdx : PrintT(<<"REJECT", T[i].id, F(T[i])>>)
        /\ PrintT(<<"JUDGED", Len(T), Cardinality(BadIdx)>>)
